@@ -266,7 +266,7 @@ ObjPut(cell, key, v) == LET i == PosOf(cell.ks, key) IN
                         ELSE [cell EXCEPT !.vs[i] = v, !.ver = cell.ver + 1]
 RECURSIVE ObjOf(_, _, _)
 ObjOf(ks, vs, acc) == IF ks = <<>> THEN acc ELSE ObjOf(Tail(ks), Tail(vs), ObjPut(acc, Head(ks), Head(vs)))
-RemoveAt(s, i) == SubSeq(s, 1, i - 1) \o SubSeq(s, i + 1, Len(s))
+DropAt(s, i) == SubSeq(s, 1, i - 1) \o SubSeq(s, i + 1, Len(s))
 
 (* user function call: fresh activation, child of the closure's scope, holding the function's own name and the
    parameters bound by position (ActivationFresh) *)
@@ -304,11 +304,11 @@ InvokeNative(name, args, k) ==
        [] name = "remove" -> (IF ~IsArr(1) THEN Fail("native")
                               ELSE LET ix == IndexIn(args[2], Len(heap[args[1].r].e)) IN
                                    IF ix.r = "err" THEN Fail("native") ELSE IF ix.r = "unspec" THEN Stop(ix.why)
-                                   ELSE New([t |-> "arr", e |-> RemoveAt(heap[args[1].r].e, ix.v)], VArr))
+                                   ELSE New([t |-> "arr", e |-> DropAt(heap[args[1].r].e, ix.v)], VArr))
        [] name = "delkey" -> (IF ~IsObj(1) \/ args[2].t # "str" THEN Fail("native")                  \* DeleteExact
                               ELSE LET cell == heap[args[1].r]  i == PosOf(cell.ks, CpsStr(args[2].s)) IN
                                    IF i = 0 THEN Fail("native")
-                                   ELSE /\ heap' = [heap EXCEPT ![args[1].r] = [cell EXCEPT !.ks = RemoveAt(cell.ks, i), !.vs = RemoveAt(cell.vs, i), !.ver = cell.ver + 1]]
+                                   ELSE /\ heap' = [heap EXCEPT ![args[1].r] = [cell EXCEPT !.ks = DropAt(cell.ks, i), !.vs = DropAt(cell.vs, i), !.ver = cell.ver + 1]]
                                         /\ Goto([m |-> "val", v |-> args[1]], k)
                                         /\ UNCHANGED <<out, stdin, status, diags, why, cur, envs, ln>>)
        [] name = "keys" -> (IF IsObj(1) THEN New([t |-> "arr", e |-> [i \in 1..Len(heap[args[1].r].ks) |-> VStr(StrCps(heap[args[1].r].ks[i]))],
@@ -404,11 +404,19 @@ ExprStmtDone ==    \* in interactive mode an expression statement echoes its val
   /\ Goto([m |-> "done"], Tail(kont))
   /\ UNCHANGED <<cur, envs, heap, ln, diags, natlog, stdin, status, why>> /\ Tick
 
-PrintEmit ==
+RECURSIVE HasDeep(_)
+HasDeep(x) == CASE x.t = "deep" -> TRUE
+                [] x.t = "arr" -> \E i \in 1..Len(x.e) : HasDeep(x.e[i])
+                [] x.t = "obj" -> \E i \in 1..Len(x.vs) : HasDeep(x.vs[i])
+                [] OTHER -> FALSE
+PrintEmit ==    \* the text of a value nested deeper than SnapDepth (in particular a value that contains itself) is left open
   /\ Ret("print")
-  /\ out' = Append(out, [t |-> "print", v |-> Snap(ctl.v, heap, TRUE, SnapDepth)])
-  /\ Goto([m |-> "done"], Tail(kont))
-  /\ UNCHANGED <<cur, envs, heap, ln, diags, natlog, stdin, status, why>> /\ Tick
+  /\ LET sn == Snap(ctl.v, heap, TRUE, SnapDepth) IN
+     IF HasDeep(sn) THEN StopUnspec("deep-or-cyclic-value")
+     ELSE /\ out' = Append(out, [t |-> "print", v |-> sn])
+          /\ Goto([m |-> "done"], Tail(kont))
+          /\ UNCHANGED <<cur, envs, heap, ln, diags, natlog, stdin, status, why>>
+  /\ Tick
 
 DeclareBind == /\ Ret("var") /\ Declare(Node(Head(kont).p).name, ctl.v, Tail(kont)) /\ Tick
 
